@@ -806,9 +806,10 @@ impl<'r> Grammar<'r> {
                         let nm = self.rng.range(1, 3);
                         for _ in 0..nm {
                             let member_kind = self.rng.below(8);
-                            // an attribute in front of a member is a line of its own at the member's level
+                            // an attribute in front of a member (a line of its own at the member's level; not marked: it
+                            // belongs to the member, a conditional wrapper must not separate the two)
                             if member_kind != 7 && self.rng.chance(1, 6) {
-                                self.tm("[", Mark::Start(depth + 2));
+                                self.t("[");
                                 let an = self.rng.pick_str(&["Weak", "Volatile", "Attr", "TestAttribute"]);
                                 self.t(an);
                                 if self.rng.chance(1, 3) {
